@@ -626,8 +626,19 @@ class SaveFault(Op):
 
     def run(self, w, op):
         import errno
+        import os
 
         I = w.objs[op["ir"]]
+        if op.get("devfull"):
+            # the PATH API against a real full device: the kernel fails the write (ENOSPC)
+            if not os.path.exists("/dev/full"):
+                out = Out("exc", exc=OSError("no /dev/full on this system"))
+                out.raw = "devfull-unavailable"
+                return out
+            out = capture(lambda: I.save_protobuf("/dev/full"))
+            out.value = None
+            out.raw = "devfull"
+            return out
         e = OSError(getattr(errno, op.get("errno", "ENOSPC")), "simulated write failure")
         st = FailingStream(op["fail_after"], e)
         out = capture(lambda: I.save_protobuf_file(st))
@@ -639,6 +650,14 @@ class SaveFault(Op):
 
     def model(self, w, op, out):
         st = out.raw
+        if st == "devfull-unavailable":
+            return None
+        if st == "devfull":
+            w.counters["fault:write_error_during_save"] += 1
+            w.counters["fault:enospc_from_dev_full_path_api"] += 1
+            if out.kind == "ok":
+                w.violate(("C01", "C14"), "save:write_error_swallowed", "save_protobuf('/dev/full') returned normally although the device accepts no byte (ENOSPC)")
+            return None
         if not getattr(st, "fired", False):
             return OPS["save"].model(w, op, out)
         w.counters["fault:write_error_during_save"] += 1
